@@ -25,6 +25,18 @@ func list(xs []string) string {
 	return "[" + strings.Join(qs, ", ") + "]"
 }
 
+func selName(e ast.Expr) string {
+	switch x := e.(type) {
+	case *ast.Ident:
+		return x.Name
+	case *ast.SelectorExpr:
+		if p := selName(x.X); p != "" {
+			return p + "." + x.Sel.Name
+		}
+	}
+	return ""
+}
+
 func typeString(e ast.Expr) string {
 	switch t := e.(type) {
 	case *ast.Ident:
@@ -391,5 +403,118 @@ func main() {
 	fmt.Println("def storerMaps : List String := " + list(sf.fields))
 	fmt.Println("/-- method ↦ what it does to the maps: (set | delete | clear | reset, map) in source order -/")
 	fmt.Println("def storerOps : List (String × List (String × String)) := [" + strings.Join(srows, ",\n  ") + "]")
+	// --- internal/tree/creator.go FromReader: the order of what matters for "syntax errors are reported and nothing is built
+	// from a parse that had one": calls on the lexer, the token stream and the parser, the early return on collected errors, the walk
+	cfile, err := parser.ParseFile(fset, filepath.Join(repo, "internal", "tree", "creator.go"), nil, 0)
+	if err != nil {
+		fmt.Fprintln(os.Stderr, err)
+		os.Exit(1)
+	}
+	var steps []string
+	for _, d := range cfile.Decls {
+		fd, ok := d.(*ast.FuncDecl)
+		if !ok || fd.Body == nil || fd.Name.Name != "FromReader" {
+			continue
+		}
+		// which local names are the lexer, the stream, the parser, the error listener
+		role := map[string]string{}
+		ast.Inspect(fd.Body, func(n ast.Node) bool {
+			vs, ok := n.(*ast.ValueSpec)
+			if ok {
+				for i, nm := range vs.Names {
+					if i < len(vs.Values) {
+						if call, ok := vs.Values[i].(*ast.CallExpr); ok {
+							switch selName(call.Fun) {
+							case "parser.NewYarnSpinnerLexer":
+								role[nm.Name] = "lexer"
+							case "antlr.NewCommonTokenStream":
+								role[nm.Name] = "stream"
+							case "parser.NewYarnSpinnerParser":
+								role[nm.Name] = "parser"
+							}
+						}
+					}
+				}
+			}
+			if as, ok := n.(*ast.AssignStmt); ok && as.Tok == token.DEFINE && len(as.Lhs) == 1 && len(as.Rhs) == 1 {
+				if id, ok := as.Lhs[0].(*ast.Ident); ok {
+					if call, ok := as.Rhs[0].(*ast.CallExpr); ok {
+						switch selName(call.Fun) {
+						case "parser.NewYarnSpinnerLexer":
+							role[id.Name] = "lexer"
+						case "antlr.NewCommonTokenStream":
+							role[id.Name] = "stream"
+						case "parser.NewYarnSpinnerParser":
+							role[id.Name] = "parser"
+						}
+					}
+					if u, ok := as.Rhs[0].(*ast.UnaryExpr); ok {
+						if cl, ok := u.X.(*ast.CompositeLit); ok {
+							if t, ok := cl.Type.(*ast.Ident); ok && t.Name == "syntaxErrorListener" {
+								role[id.Name] = "errors"
+							}
+						}
+					}
+				}
+			}
+			return true
+		})
+		var visit func(st ast.Stmt)
+		callsIn := func(n ast.Node) {
+			ast.Inspect(n, func(m ast.Node) bool {
+				call, ok := m.(*ast.CallExpr)
+				if !ok {
+					return true
+				}
+				if sel, ok := call.Fun.(*ast.SelectorExpr); ok {
+					if id, ok := sel.X.(*ast.Ident); ok && role[id.Name] != "" && role[id.Name] != "errors" {
+						arg := ""
+						if len(call.Args) == 1 {
+							if a, ok := call.Args[0].(*ast.Ident); ok && role[a.Name] == "errors" {
+								arg = "(errors)"
+							}
+						}
+						steps = append(steps, role[id.Name]+"."+sel.Sel.Name+arg)
+					}
+					if strings.HasSuffix(selName(call.Fun), ".Walk") {
+						steps = append(steps, "walk")
+					}
+				}
+				return true
+			})
+		}
+		visit = func(st ast.Stmt) {
+			if ifs, ok := st.(*ast.IfStmt); ok {
+				// `if len(<errors>.errors) != 0 { return nil, … }`
+				cond := fmt.Sprint(ifs.Cond)
+				_ = cond
+				isErrCheck := false
+				ast.Inspect(ifs.Cond, func(m ast.Node) bool {
+					if sel, ok := m.(*ast.SelectorExpr); ok {
+						if id, ok := sel.X.(*ast.Ident); ok && role[id.Name] == "errors" {
+							isErrCheck = true
+						}
+					}
+					return true
+				})
+				returns := false
+				for _, b := range ifs.Body.List {
+					if _, ok := b.(*ast.ReturnStmt); ok {
+						returns = true
+					}
+				}
+				if isErrCheck && returns {
+					steps = append(steps, "return-if-errors")
+					return
+				}
+			}
+			callsIn(st)
+		}
+		for _, st := range fd.Body.List {
+			visit(st)
+		}
+	}
+	fmt.Println("/-- FromReader: calls on the lexer / token stream / parser, the early return on collected syntax errors, the walk — in source order -/")
+	fmt.Println("def loadSteps : List String := " + list(steps))
 	fmt.Println("end Ysgo.Generated")
 }
